@@ -61,6 +61,25 @@ Theorem C02_decode_fresh : forall o data o',
 Proof. exact decode_fresh. Qed.
 Print Assumptions C02_decode_fresh.
 
+(* --- a decode that RAISES: for the listed classes nothing is assigned before the raising statement,
+       so the instance is exactly as before; for the others [decode_partial] (tied to the real classes by
+       the call-history suite) says which attributes are already assigned; the class never changes --- *)
+Theorem C02_decode_raise_atomic : forall o data,
+  wf_shape o = true -> mem_cls (class_of o) atomic_decode = true -> decode_partial o data = o.
+Proof. exact decode_raise_atomic. Qed.
+Print Assumptions C02_decode_raise_atomic.
+
+Theorem C02_decode_partial_class : forall o data, class_of (decode_partial o data) = class_of o.
+Proof. exact decode_partial_class. Qed.
+Print Assumptions C02_decode_partial_class.
+
+(* the partial-state function and a successful decode agree (register responses) *)
+Theorem C02_decode_partial_registers : forall c regs data r,
+  cls_eqb c ReadWriteMultipleRegistersResponse = false ->
+  decode_into (ORegsRsp c regs) data = Ok r -> decode_partial (ORegsRsp c regs) data = r.
+Proof. exact decode_partial_regs_complete. Qed.
+Print Assumptions C02_decode_partial_registers.
+
 (* --- where the pinned code violates the property ------------------------------------------------ *)
 Definition C02_full_statement : Prop :=
   (forall o m, abs o = Some m ->
